@@ -51,8 +51,8 @@ type c11Op struct {
 }
 
 type c11Label struct {
-	del  bool
-	t    int // transaction, or name for del
+	del bool
+	t   int // transaction, or name for del
 }
 
 type c11Cfg struct {
@@ -120,24 +120,28 @@ type c11Event struct {
 }
 
 type c11Run struct {
-	cfg     c11Cfg
-	progs   [][]c11Op // including the probe as the last one
-	m       *cache.Manager
-	txs     []*cache.Transaction
-	release []chan struct{}
-	ev      []chan c11Event
-	gid     []uint64
-	gidWG   sync.WaitGroup
-	exitWG  sync.WaitGroup
-	abort   bool // set before the channels are closed
+	cfg        c11Cfg
+	progs      [][]c11Op // including the probe as the last one
+	m          *cache.Manager
+	txs        []*cache.Transaction
+	release    []chan struct{}
+	ev         []chan c11Event
+	gid        []uint64
+	gidWG      sync.WaitGroup
+	exitWG     sync.WaitGroup
+	abort      bool // set before the channels are closed
 	skipCommit []bool
-	exited  []atomic.Bool
-	stat    []c11Stat
+	exited     []atomic.Bool
+	lateWake   atomic.Bool // set once locks are opened by force: nobody calls Commit any more
+	stat       []c11Stat
 	// element registry; createFn runs in the transaction goroutines, one at a time in
 	// practice (forced schedule), the mutex is for the race detector's sake
 	regMu sync.Mutex
 	items map[uintptr]int
 	nitem int
+	// every sharedCacheElem ever seen in the manager map (address, offset of its mutex)
+	elemPtrs map[unsafe.Pointer]bool
+	muOff    uintptr
 	// bookkeeping for the F6-precondition tag
 	tag bool
 }
@@ -242,7 +246,7 @@ func (r *c11Run) txMain(t int) {
 		}
 		r.ev[t] <- c11Event{kind: c11Idle, err: err != nil, isOp: true}
 	}
-	if r.abort && !r.skipCommit[t] && !committed {
+	if r.abort && !r.skipCommit[t] && !committed && !r.lateWake.Load() {
 		// let go of the write locks so that transactions blocked behind us can leave
 		tx.Commit(true)
 	}
@@ -310,6 +314,10 @@ func (r *c11Run) readMap() [][2]int {
 				ni = i
 			}
 		}
+		if f, ok := it.Value().Type().Elem().FieldByName("mu"); ok {
+			r.muOff = f.Offset
+			r.elemPtrs[it.Value().UnsafePointer()] = true
+		}
 		item := it.Value().Elem().FieldByName("item")
 		p := item.Elem().Pointer()
 		r.regMu.Lock()
@@ -331,13 +339,13 @@ func (r *c11Run) observe() c11Obs {
 }
 
 type c11Result struct {
-	sched    []c11Label
-	taken    []c11Label // like sched, including a last step that was cut
-	obs      []c11Obs
-	choices  [][]c11Label // alternatives at each non-probe step
-	tag      bool
-	deadlock bool
-	ambiguous bool
+	sched       []c11Label
+	taken       []c11Label // like sched, including a last step that was cut
+	obs         []c11Obs
+	choices     [][]c11Label // alternatives at each non-probe step
+	tag         bool
+	deadlock    bool
+	ambiguous   bool
 	blockedSeen bool
 }
 
@@ -376,7 +384,7 @@ func c11Exec(cfg c11Cfg, choose func(step int, alts []c11Label) int) (*c11Result
 		progs = append(progs, c11ProbeProg(c11NamesOf(cfg)))
 	}
 	n := len(progs)
-	r := &c11Run{cfg: cfg, progs: progs, m: cache.NewManager(cfg.limit), items: map[uintptr]int{}}
+	r := &c11Run{cfg: cfg, progs: progs, m: cache.NewManager(cfg.limit), items: map[uintptr]int{}, elemPtrs: map[unsafe.Pointer]bool{}}
 	r.release = make([]chan struct{}, n)
 	r.ev = make([]chan c11Event, n)
 	r.gid = make([]uint64, n)
@@ -563,10 +571,25 @@ func c11Exec(cfg c11Cfg, choose func(step int, alts []c11Label) int) (*c11Result
 			return res, runErr
 		case <-time.After(2 * time.Millisecond):
 		}
-		// mutual wait: open the write locks held by transactions that are blocked for good
+		// some transaction is blocked for good (mutual wait of writers, or a lock whose owner
+		// forgot it): every other goroutine has left, no read lock is held any more, so every
+		// element lock that is still held belongs to a transaction that will never call Commit
+		// (it skips it in abort mode) -- open them until everybody has left
+		allQuiet := true
 		for t := 0; t < n; t++ {
-			if r.skipCommit[t] && (r.exited[t].Load() || c11IsLockWait(c11GoState(r.gid[t]))) {
-				c11ForceUnlock(r.txs[t])
+			if !r.exited[t].Load() && !c11IsLockWait(c11GoState(r.gid[t])) {
+				allQuiet = false
+			}
+		}
+		if allQuiet {
+			r.lateWake.Store(true)
+			for p := range r.elemPtrs {
+				mu := (*sync.RWMutex)(unsafe.Add(p, r.muOff))
+				if mu.TryLock() {
+					mu.Unlock()
+				} else {
+					mu.Unlock()
+				}
 			}
 		}
 		if round > 500 {
@@ -577,27 +600,6 @@ func c11Exec(cfg c11Cfg, choose func(step int, alts []c11Label) int) (*c11Result
 }
 
 var c11Leaked int
-
-// unlock the RWMutex of every element in tx.writtenCaches and empty the map
-// (only for transactions whose goroutine is blocked for good and will skip Commit)
-func c11ForceUnlock(tx *cache.Transaction) {
-	defer func() { recover() }()
-	wv := reflect.ValueOf(tx).Elem().FieldByName("writtenCaches")
-	it := wv.MapRange()
-	type rw = sync.RWMutex
-	var keys []reflect.Value
-	for it.Next() {
-		muv := it.Value().Elem().FieldByName("mu")
-		mu := (*rw)(unsafe.Pointer(muv.UnsafeAddr()))
-		mu.Unlock() // write-held by this transaction (it recorded it under the lock)
-		keys = append(keys, reflect.ValueOf(it.Key().String()))
-	}
-	// forget them so that a second round does not unlock twice
-	wm := reflect.NewAt(wv.Type(), unsafe.Pointer(wv.UnsafeAddr())).Elem()
-	for _, k := range keys {
-		wm.SetMapIndex(k, reflect.Value{})
-	}
-}
 
 // ---------------------------------------------------------------- printing
 func (l c11Label) coq() string {
@@ -807,11 +809,11 @@ func c11RandProg(r *rand.Rand, maxLen int) []c11Op {
 }
 
 type c11Out struct {
-	files    []*caseFile
-	n        int
-	distinct map[string]bool
-	hist     map[string]int
-	rc       *runCtx
+	files     []*caseFile
+	n         int
+	distinct  map[string]bool
+	hist      map[string]int
+	rc        *runCtx
 	knownSeen int
 }
 
@@ -831,7 +833,7 @@ func (o *c11Out) emit(cfg c11Cfg, res *c11Result) {
 	o.hist[fmt.Sprintf("transactions=%d", len(cfg.progs))]++
 	o.hist["kind="+cfg.kind]++
 	if res.deadlock {
-		o.hist["ends in mutual wait of uncommitted writers"]++
+		o.hist["ends with a writer blocked for good (mutual wait of uncommitted writers, or behind a lock its owner lost after a Release)"]++
 	}
 	if res.ambiguous {
 		o.hist["cut: two transactions wait for one lock"]++
@@ -857,6 +859,9 @@ func (o *c11Out) emit(cfg c11Cfg, res *c11Result) {
 func runC11(rc *runCtx) error {
 	t0 := time.Now()
 	nfiles := 8
+	if rc.thorough() {
+		nfiles = 16
+	}
 	out := &c11Out{distinct: map[string]bool{}, hist: map[string]int{}, rc: rc}
 	for i := 0; i < nfiles; i++ {
 		cf, err := newCaseFile(filepath.Join(rc.outDir, fmt.Sprintf("cases_C11_%02d.v", i)), []string{"Model_C11", "Run_C11"}, "c11case")
@@ -870,7 +875,7 @@ func runC11(rc *runCtx) error {
 	// ---- 1. curated scenarios, every interleaving (bounded per scenario in the quick tier)
 	perScenario := 150
 	if rc.thorough() {
-		perScenario = 20000
+		perScenario = 2000
 	}
 	rs := newRng(rc.seed, 111)
 	for _, cfg := range c11Scenarios() {
@@ -894,6 +899,11 @@ func runC11(rc *runCtx) error {
 			}
 		}
 		exhaustive["scenario "+cfg.kind] = map[string]any{"schedules": cnt, "all_interleavings": complete}
+		if complete {
+			out.hist["scenarios with ALL interleavings enumerated"]++
+		} else {
+			out.hist["scenarios sampled (more interleavings than the tier's budget)"]++
+		}
 	}
 	// ---- 2. two transactions, every interleaving
 	//   quick: programs of length 1 (all pairs up to swapping the transactions), limits -1 0 1
@@ -906,7 +916,7 @@ func runC11(rc *runCtx) error {
 	progs := c11AllProgs(maxLen)
 	budget2 := 2200
 	if rc.thorough() {
-		budget2 = 400000
+		budget2 = 30000
 	}
 	if rc.n > 0 {
 		budget2 = rc.n
@@ -944,6 +954,8 @@ outer:
 			pairsDone++
 		}
 	}
+	out.hist[fmt.Sprintf("two-transaction configurations (program pair x limit, programs of length <= %d) with ALL interleavings enumerated", maxLen)] = pairsDone
+	out.hist["two-transaction configurations in the stated bound"] = pairs
 	exhaustive["two transactions"] = map[string]any{"program_length_max": maxLen, "configurations": pairs, "configurations_done": pairsDone,
 		"schedules": sched2, "all_configurations": complete2}
 	// ---- 3. sampled: two and three transactions with programs of length <= 2, random interleavings,
@@ -951,7 +963,7 @@ outer:
 	r3 := newRng(rc.seed, 1111)
 	nsample := 900
 	if rc.thorough() {
-		nsample = 60000
+		nsample = 10000
 	}
 	for k := 0; k < nsample; k++ {
 		ntx := 2 + r3.IntN(2)
@@ -977,7 +989,7 @@ outer:
 	// ---- 4. thorough: three transactions exhaustively (programs of length 1), up to a budget
 	if rc.thorough() {
 		p1 := c11AllProgs(1)
-		budget3 := 300000
+		budget3 := 20000
 		s3, cfgs3 := 0, 0
 		complete3 := true
 	outer3:
